@@ -11,8 +11,8 @@ for f in sorted(os.listdir(os.path.join(HERE, "units"))):
 TEXT = {
  "C01": ("proof", "Partial. Proved (Kani complete-finite + Verus): the C backend's primitive spelling tables denote the Rust ABI and match the MAKE_SLICES_AND_OPTIONS mirror lines extracted from capi.h.jinja; ast->hir primitive lowering and the gate keep every primitive's width/sign/kind (Ordering == i8, what the macro compiles); runtime repr(C) layouts of DiplomatResult/slices/DiplomatWrite/DiplomatCallback; is_ffi_safe/ffi_safe_version (used by the macro's param_ty) equal their spec; the C declaration of a method has one parameter per Rust parameter plus the trailing DiplomatWrite* for every write return shape (gen_method prefix); the C result struct has exactly the non-zero-sized arms (gen_result_ty); Enum::new discriminants == rustc's rule."),
  "C03": ("proof", "Partial (Rust runtime half). Kani harness-checked contracts for every impl in runtime/src/result.rs (complete: loop-free, full-domain; generic lifecycle over all drop-glue combinations), DiplomatOwnedSlice/UTF8 From/Into/Drop (all lengths for pointer/len; bounded contents), DiplomatCallback Drop, buffer writer create/destroy: exactly-once drop, no double free / use-after-free (CBMC memory checks). Found and fixed a genuine double drop."),
- "C04": ("proof", "Partial (the analysis). Verus, unbounded: hir::LifetimeTransitivityIterator::{new,next} maintain the closure invariant and the collect() driver theorem shows all_longer/all_shorter_lifetimes == reflexive-transitive closure of the outlives graph, start first, no duplicates, for any number of lifetimes; the elision state machine and the AST->HIR edge copy; ast extend_implicit_lifetime_bounds and the recursive DFS of ast::LifetimeTransitivity; ReturnType::used_method_lifetimes == non-static lifetimes of success and error payloads; BorrowingParamVisitor::visit_param, StructBorrowInfo::compute_for_struct_field and the borrow_map construction of BorrowingParamVisitor::new against an oracle written from the property (edges per output lifetime == parameters / struct slots mentioning a lifetime of its all_longer set); one obligation (visit_param's unreachable! arm) is refuted on the unchanged tree and listed as a known finding. Kani bounded (<= 3 lifetimes): LinkedLifetimes use/def pairs are positional and total."),
- "C05": ("proof", "Partial (the gate). Verus, unbounded, on verbatim text: lower_type, lower_out_type, lower_callback_param, lower_return_type, lower_self_param return Ok exactly for the documented shapes (independent oracles allowed_in/allowed_out/return_ok/self_ok) and push an error on every rejection; is_ffi_safe == spec; lower_param/lower_many_params/lower_method/lower_all_methods: a method is accepted only if self, every non-write parameter and the return type pass, DiplomatWrite only as last parameter."),
+ "C04": ("proof", "Partial (the analysis). Verus, unbounded: hir::LifetimeTransitivityIterator::{new,next} maintain the closure invariant and the collect() driver theorem shows all_longer/all_shorter_lifetimes == reflexive-transitive closure of the outlives graph, start first, no duplicates, for any number of lifetimes; the elision state machine and the AST->HIR edge copy; ast extend_implicit_lifetime_bounds and the recursive DFS of ast::LifetimeTransitivity; ReturnType::used_method_lifetimes == non-static lifetimes of success and error payloads; BorrowingParamVisitor::visit_param, StructBorrowInfo::compute_for_struct_field and the borrow_map construction of BorrowingParamVisitor::new against an oracle written from the property (edges per output lifetime == parameters / struct slots mentioning a lifetime of its all_longer set); TypeContext::validate_ty_in_method rejects a method iff a def-site bound of a parameter/return type is missing from the method's LifetimeEnv; one obligation (visit_param's unreachable! arm) is refuted on the unchanged tree and listed as a known finding. Kani bounded (<= 3 lifetimes): LinkedLifetimes use/def pairs are positional and total."),
+ "C05": ("proof", "Partial (the gate). Verus, unbounded, on verbatim text: lower_type, lower_out_type, lower_callback_param, lower_return_type, lower_self_param return Ok exactly for the documented shapes (independent oracles allowed_in/allowed_out/return_ok/self_ok) and push an error on every rejection; is_ffi_safe == spec; lower_param/lower_many_params/lower_method/lower_all_methods/lower_struct/lower_out_struct: a method is accepted only if self, every non-write parameter and the return type pass, DiplomatWrite only as last parameter; validate_ty_in_method reports exactly the def-site bounds not restated on a method; ErrorStore context attribution."),
  "C06": ("proof", "Partial (inheritance of abi_rename). Verus: RenameAttr::{extend,attrs_for_inheritance,is_empty,from_pattern}, ast::Attrs::attrs_for_inheritance, hir::Attrs::for_inheritance against the documented rule; lemma: effective pattern = last non-empty of (module, impl|type, method); the opaque destructor name and Method::from_syn's abi name are built from the type's own rename attribute (statement prefixes)."),
  "C07": ("proof", "Partial (primitive tables). Kani complete-finite: Dart ffi annotations / slice records / allocators and Kotlin JNA types for all 15 primitives have the width, signedness and float kind of the Rust ABI type; ast->hir primitive lowering keeps the primitive; Verus: ReturnType/SuccessType accessors see through Infallible/Fallible/Nullable alike; Dart gen_method_info declares the trailing write parameter exactly for write methods (statement range)."),
  "C08": ("proof", "Partial (the layout routine and its consumers' decisions). Verus, unbounded: struct_field_info offsets/size/align/padding fields/scalar counts == Rust-reference repr(C) for any number of fields (callee abstracted by contract); generate_fields' force-padding decision and the number of padding slots emitted after a field == wasm_abi_quirks rule / layout padding_count (statement fragments); gen_c_to_js_deref_for_type reads every field at base+offset through wrapper structs. Kani complete-finite: primitive and leaf-type layouts == wasm32 ABI and satisfy that callee contract; Kani bounded: whole routine vs oracle for 1..2 (quick) / 1..4 (thorough) fields."),
